@@ -467,7 +467,7 @@ mod exec {
                     _ => false,
                 }
             }
-            if !s.chars().all(nice_char) {
+            if s.is_empty() || !s.chars().all(nice_char) {
                 Cow::Owned(format!("'{}'", s.replace("'", r#"'\''"#)))
             } else {
                 Cow::Borrowed(s)
